@@ -5,6 +5,7 @@ import (
 	"encoding/json"
 	"fmt"
 	"regexp"
+	"regexp/syntax"
 	"strings"
 	"testing"
 	"unicode/utf8"
@@ -71,7 +72,7 @@ func oracle(c Case) *ev.Verdict {
 	var gotPat string
 	var gotLen uint
 	var ex1, ex2 []byte
-	var exErr error
+	var exErr, ex2Err error
 	var astVal string
 	var oas []byte
 	var oasErr error
@@ -111,7 +112,7 @@ func oracle(c Case) *ev.Verdict {
 		for i := range raw {
 			raw[i] = '\x00'
 		}
-		ex2, _ = r.Example()
+		ex2, ex2Err = r.Example()
 		a, _ := r.GetAST()
 		astVal = a.Value
 		oas, oasErr = openapi.NewSchemaObject(r).MarshalJSON()
@@ -130,7 +131,19 @@ func oracle(c Case) *ev.Verdict {
 			return ev.V("openapi:pattern", "OpenAPI of %q is %s, want type string and pattern %q", s, oas, pat)
 		}
 	}
+	if hasEmptyClass(pat) {
+		// a character class without members: the pattern (or a branch of it) matches nothing, an example may
+		// not exist; Example() has to return (the panic case is judged above), what it returns is not asserted
+		ev.Excluded("all", "example-match skipped: a character class without members (possibly unsatisfiable)")
+		return nil
+	}
+	if exErr == nil && ex2Err != nil {
+		exErr = ex2Err // (the generator is a random stream: a later call may be the one that reaches the class)
+	}
 	if exErr != nil {
+		if hasHighClassWithoutASCII(pat) {
+			return ev.V("example:error:class-up-to-U+10FFFF-without-printable-ASCII", "Example() of accepted %q fails: %v", s, exErr)
+		}
 		return ev.V("example:error", "Example() of accepted %q fails: %v", s, exErr)
 	}
 	if anchors.MatchString(pat) {
@@ -164,6 +177,10 @@ func oracle(c Case) *ev.Verdict {
 		}); esc != nil {
 			return ev.V("panic:type-use:"+esc.Frame, "using %q as a type panicked: %s", s, esc.Value)
 		}
+		if addErr != nil && addErr.Code == 1801 && hasHighClassWithoutASCII(pat) {
+			// registering the type draws one more example
+			return ev.V("example:error:class-up-to-U+10FFFF-without-printable-ASCII", "AddType of accepted regex schema %q fails: %s", s, addErr)
+		}
 		if addErr != nil {
 			return ev.V("type-use:addtype", "AddType of accepted regex schema %q fails: %s", s, addErr)
 		}
@@ -172,6 +189,65 @@ func oracle(c Case) *ev.Verdict {
 		}
 	}
 	return nil
+}
+
+// hasEmptyClass: does the parsed pattern contain a character class without members (regexp/syntax
+// represents `[^\x00-\x{10FFFF}]`, `[^\s\S]` ... as OpNoMatch or as a class with an empty range list)
+func hasEmptyClass(pat string) bool {
+	re, err := syntax.Parse(pat, syntax.Perl)
+	if err != nil {
+		return false
+	}
+	var walk func(r *syntax.Regexp) bool
+	walk = func(r *syntax.Regexp) bool {
+		if r.Op == syntax.OpNoMatch || (r.Op == syntax.OpCharClass && len(r.Rune) == 0) {
+			return true
+		}
+		for _, s := range r.Sub {
+			if walk(s) {
+				return true
+			}
+		}
+		return false
+	}
+	return walk(re) || walk(re.Simplify())
+}
+
+// hasHighClassWithoutASCII: a character class that reaches U+10FFFF (typically a negated one) and holds none
+// of the ASCII letters, digits, punctuation marks, blank, TAB, LF, CR: `[^\x00-\x7F]`, `[^ -~\s]`, `[\x{10000}-\x{10FFFF}]`
+func hasHighClassWithoutASCII(pat string) bool {
+	re, err := syntax.Parse(pat, syntax.Perl)
+	if err != nil {
+		return false
+	}
+	var walk func(r *syntax.Regexp) bool
+	walk = func(r *syntax.Regexp) bool {
+		if r.Op == syntax.OpCharClass && len(r.Rune) >= 2 && r.Rune[len(r.Rune)-1] == 0x10FFFF {
+			ascii := false
+			for i := 0; i+1 < len(r.Rune); i += 2 {
+				for c := rune(0x20); c <= 0x7e; c++ {
+					if c >= r.Rune[i] && c <= r.Rune[i+1] {
+						ascii = true
+					}
+				}
+				for _, c := range []rune{'\t', '\n', '\r'} {
+					if c >= r.Rune[i] && c <= r.Rune[i+1] {
+						ascii = true
+					}
+				}
+			}
+			if !ascii {
+				return true
+			}
+		}
+		for _, s := range r.Sub {
+			if walk(s) {
+				return true
+			}
+		}
+		return false
+	}
+	return walk(re) || walk(re.Simplify())
 }
 
 var alphabet = []string{"/", "\\", "a", "b", "[", "]", "(", ")", "*", "+", "?", ".", "^", "|", "{", "}", "1", ","}
@@ -221,6 +297,10 @@ func genAtom(t *rapid.T, depth int) string {
 		neg := ""
 		if rapid.IntRange(0, 4).Draw(t, "neg") == 0 {
 			neg = "^"
+		}
+		if rapid.IntRange(0, 11).Draw(t, "emptycls") == 0 {
+			// classes that contain no character at all: the pattern compiles and matches nothing there
+			return rapid.SampledFrom([]string{`[^\x00-\x{10FFFF}]`, `[^\s\S]`, `[^\d\D]`, `[^\w\W]`, `[^\x00-\x7F]`, `[^\x00-\x{FFFF}]`, `[\x{10000}-\x{10FFFF}]`, `[^ -~\s]`}).Draw(t, "empty-class")
 		}
 		return "[" + neg + strings.Join(items, "") + "]"
 	case 5:
